@@ -15,7 +15,7 @@ CONFIG = {
     ],
     "assumptions": [
         "model/ProtoPrintLit.v + model/ProtoPrint.v model the literal layer (prototextString, marshalSingular integers/bools, identifiers) and contextRefName, and stand in for protocompile's lexer and relative-name resolver on the emitted subset; they are tied to the code by the literal and scope correspondence streams of this run and by the regenerated tables",
-        "the layout layer of the printer (element order, comments, blank lines, inline vs block options, Simplify) is not modelled: it is covered by the round-trip oracle on the real printer and parser only (character layer partial)",
+        "option values are modelled at token level (print_val/print_raw, parse_raw; tied by tokenising the text the real option printer writes for every option of every element of the files in the run); the layout layer of the printer (element order, comments, blank lines, inline vs block options, Simplify) is not modelled: it is covered by the round-trip oracle on the real printer and parser only (character layer partial)",
         "floats in option values (fFloat) are not modelled",
     ],
     "mult_search": 3,
@@ -26,7 +26,7 @@ CONFIG = {
 }
 
 MANIFEST = {
-    "text": "Theorems over a Gallina model of the printer's literal layer and scope shortening: for all byte strings (incl. invalid UTF-8) the literal written by prototextString is pure ASCII and is read back by the text-format lexer as the same bytes, also in front of arbitrary following text; integers, booleans and dotted identifiers round-trip; the name contextRefName prints for a type reference (shortened, or fully qualified with a leading dot when a nested type or a package would capture it) resolves, from the scope it is printed in, to the type it was written for — for all symbol tables and nestings (the previous printer: proved under no-capture hypotheses, refuted without them by concrete tables). Tied to the code by regenerated escape/arm tables, by evaluating the model printer, the model lexer and the model resolver against prototextString, marshalSingular, contextRefName, the real protocompile lexer and the real protocompile linker, and by the end-to-end oracle PrintFile -> protocompile parse+link -> descriptor comparison (every field, option and extension value, leading comments) -> PrintFile again byte-equal on every .proto of the repository and on the files compiled from generated j5s packages.",
-    "note": "Level: proof for the literal layer and the scope layer (full, all inputs); the layout/character layer is checked by the round-trip oracle only (partial). Known findings: options on map entry value fields are not printed (map:key:id62 degrades to map<string,string>), a trailing comment printed after a closing brace is lost on re-parse. Fixed in this round: empty type name for self-referencing fields, json_name not printed, shortened/cross-package names captured by nested types or packages.",
+    "text": "Theorems over a Gallina model of the printer's literal layer and scope shortening: for all byte strings (incl. invalid UTF-8) the literal written by prototextString is pure ASCII and is read back by the text-format lexer as the same bytes, also in front of arbitrary following text; integers, booleans and dotted identifiers round-trip; for every option value tree the parser of the emitted token subset reads back the tree that was printed and printing it again gives the same tokens (idempotence at token level); the name contextRefName prints for a type reference (shortened, or fully qualified with a leading dot when a nested type or a package would capture it) resolves, from the scope it is printed in, to the type it was written for — for all symbol tables and nestings (the previous printer: proved under no-capture hypotheses, refuted without them by concrete tables). Tied to the code by regenerated escape/arm tables, by evaluating the model printer, the model lexer and the model resolver against prototextString, marshalSingular, contextRefName, the real protocompile lexer and the real protocompile linker, and by the end-to-end oracle PrintFile -> protocompile parse+link -> descriptor comparison (every field, option and extension value, leading comments) -> PrintFile again byte-equal on every .proto of the repository and on the files compiled from generated j5s packages.",
+    "note": "Level: proof for the literal layer and the scope layer (full, all inputs); the layout/character layer is checked by the round-trip oracle only (partial). Known findings: options on map entry value fields are not printed (map:key:id62 degrades to map<string,string>). Fixed in this round: trailing comment of an empty element, empty type name for self-referencing fields, json_name not printed, shortened/cross-package names captured by nested types or packages.",
     "technique": "Rocq/Coq proof (UTF-8 decode/encode round trip, escape inverse pairs, radix round trip, scope-resolution lemma by induction on the scope chain) + regenerated escape tables + in-Coq differential correspondence against the real printer, lexer and linker + end-to-end round-trip oracle",
 }
